@@ -1,5 +1,6 @@
 import MW.Inv.Reach
 import MW.Staking.Query
+import MW.Staking.Interface
 /-!
 # C17 — Queries paginate completely and the per-user request index is consistent
 
@@ -255,5 +256,10 @@ theorem all_requests_limit_is_prefix (s : CState) (cursor : Option Nat) (n : Nat
 example :
     let m : AMap Nat := [(1, 10), (2, 20), (3, 30)]
     pagesFrom m 1 (fun v => v != 20) 4 none = [(1, 10), (3, 30)] := by decide
+
+/-- the queries the source declares (table regenerated from /repo's `QueryMsg` on every run) are exactly the eleven
+the model answers, with the same parameters -/
+theorem queries_are_the_modelled_ones :
+    MW.Generated.Interface.staking_query = MW.Interface.model_staking_query := MW.Interface.staking_query_eq
 
 end MW.Props.C17
